@@ -206,13 +206,15 @@ func ruleC06Raw(p *Prog, a *Anchors, r *Report) {
 		r.Unk("nodeHTML.token", "-", "no construction of nodeHTML found")
 	}
 	// Execute: the written text derives from token.Val through trims/reslicing only, each trim behind its own flag
+	// (the trimming may be delegated to methods of the node that get the text as a parameter: they are followed)
+	textEnv := &t2TextEnv{seen: map[*ssa.Function]bool{}}
 	for _, b := range nh.Blocks {
 		for _, in := range b.Instrs {
 			ci, ok := in.(ssa.CallInstruction)
 			if !ok || !ci.Common().IsInvoke() || (ci.Common().Method.Name() != "WriteString" && ci.Common().Method.Name() != "Write") {
 				continue
 			}
-			ok2, why := htmlTextProvenance(p, ci.Common().Args[0], 0)
+			ok2, why := htmlTextProvenance(p, ci.Common().Args[0], 0, textEnv)
 			if ok2 {
 				r.OK("nodeHTML.Execute:sink", p.InstrPos(in), "writes token.Val, possibly trimmed")
 			} else {
@@ -220,27 +222,31 @@ func ruleC06Raw(p *Prog, a *Anchors, r *Report) {
 			}
 		}
 	}
-	for _, b := range nh.Blocks {
-		for _, in := range b.Instrs {
-			c, ok := in.(*ssa.Call)
-			if !ok || c.Common().StaticCallee() == nil {
-				continue
-			}
-			n := p.extName(c.Common().StaticCallee())
-			if !strings.HasPrefix(n, "strings.Trim") {
-				continue
-			}
-			g := Guarded(in, func(cnd ssa.Value, pol bool) bool {
-				if !pol {
-					return false
+	// the trims: in Execute and in every method of the node the written text was followed through
+	for _, tf := range t2TextFuncs(nh, textEnv) {
+		fkey := "nodeHTML." + tf.Name() + ":"
+		for _, b := range tf.Blocks {
+			for _, in := range b.Instrs {
+				c, ok := in.(*ssa.Call)
+				if !ok || c.Common().StaticCallee() == nil {
+					continue
 				}
-				_, tn, _ := fieldLoadBase(cnd)
-				return tn != nil && (tn.Obj().Name() == "nodeHTML" || tn.Obj().Name() == "Options")
-			})
-			if g {
-				r.OK("nodeHTML.Execute:"+n, p.InstrPos(in), "trim applied only under its flag")
-			} else {
-				r.Bad("nodeHTML.Execute:"+n, p.InstrPos(in), "%s is applied unconditionally: whitespace of literal text is removed although no `-` marker / option asked for it", n)
+				n := p.extName(c.Common().StaticCallee())
+				if !strings.HasPrefix(n, "strings.Trim") {
+					continue
+				}
+				g := Guarded(in, func(cnd ssa.Value, pol bool) bool {
+					if !pol {
+						return false
+					}
+					_, tn, _ := fieldLoadBase(cnd)
+					return tn != nil && (tn.Obj().Name() == "nodeHTML" || tn.Obj().Name() == "Options")
+				})
+				if g {
+					r.OK(fkey+n, p.InstrPos(in), "trim applied only under its flag")
+				} else {
+					r.Bad(fkey+n, p.InstrPos(in), "%s is applied unconditionally: whitespace of literal text is removed although no `-` marker / option asked for it", n)
+				}
 			}
 		}
 	}
@@ -256,8 +262,8 @@ func indexOfParam(f *ssa.Function, pa *ssa.Parameter) int {
 }
 
 // htmlTextProvenance: v is token.Val of the node's token, possibly passed through strings.Trim*/reslicing/phis.
-func htmlTextProvenance(p *Prog, v ssa.Value, depth int) (bool, string) {
-	if depth > 12 {
+func htmlTextProvenance(p *Prog, v ssa.Value, depth int, env *t2TextEnv) (bool, string) {
+	if depth > 16 {
 		return false, "a value too deep to follow"
 	}
 	switch x := v.(type) {
@@ -269,24 +275,38 @@ func htmlTextProvenance(p *Prog, v ssa.Value, depth int) (bool, string) {
 			return false, "the value of another token (" + p.VN(base) + ")"
 		}
 		if sv := localLoadValue(x); sv != nil {
-			return htmlTextProvenance(p, sv, depth+1)
+			return htmlTextProvenance(p, sv, depth+1, env)
 		}
 	case *ssa.Phi:
 		for _, e := range x.Edges {
-			if ok, why := htmlTextProvenance(p, e, depth+1); !ok {
+			if ok, why := htmlTextProvenance(p, e, depth+1, env); !ok {
 				return false, why
 			}
 		}
 		return true, ""
 	case *ssa.Slice:
-		return htmlTextProvenance(p, x.X, depth+1)
+		return htmlTextProvenance(p, x.X, depth+1, env)
 	case *ssa.Call:
 		if x.Common().StaticCallee() != nil && strings.HasPrefix(p.extName(x.Common().StaticCallee()), "strings.Trim") {
-			return htmlTextProvenance(p, x.Common().Args[0], depth+1)
+			return htmlTextProvenance(p, x.Common().Args[0], depth+1, env)
+		}
+		// a method of the text node that returns its text parameter, trimmed or not: every result is followed inside
+		// the method, the parameter back to the argument of this call
+		if inner := env.enter(p, x); inner != nil {
+			for _, ret := range returnsOf(x.Common().StaticCallee()) {
+				if ok, why := htmlTextProvenance(p, res(ret, 0), depth+1, inner); !ok {
+					return false, why + " (in " + p.FuncName(x.Common().StaticCallee()) + ")"
+				}
+			}
+			return true, ""
 		}
 		return false, "the result of " + p.calleeName(x.Common())
+	case *ssa.Parameter:
+		if arg, outer := env.actual(x); arg != nil {
+			return htmlTextProvenance(p, arg, depth+1, outer)
+		}
 	case *ssa.Convert:
-		return htmlTextProvenance(p, x.X, depth+1)
+		return htmlTextProvenance(p, x.X, depth+1, env)
 	}
 	return false, p.VN(v)
 }
@@ -339,87 +359,102 @@ func ruleC06Comment(p *Prog, a *Anchors, r *Report) {
 			r.Bad("node:silent", p.Pos(f.Pos()), "the comment node's Execute performs %d call(s): comments must emit nothing and evaluate nothing", calls)
 		}
 	}
-	// the search for the comment terminator works on the input AFTER the opener was skipped
+	// the search for the comment terminator works on the input AFTER the opener was skipped. The comment scanner may
+	// live in run() itself or in helper methods run() calls: the guard `HasPrefix(input[pos:], "{#")` is looked for on
+	// the path to the skip within its function or at every call site of that helper; "after the skip" is decided in the
+	// function of the search, or at the call sites of the helper that holds it.
 	if run := p.Method("lexer", "run"); run != nil {
+		cl := clusterOf(p, run, 2)
+		opener := func(c ssa.Value, pol bool) bool {
+			call, ok := c.(*ssa.Call)
+			if !ok || !pol || call.Common().StaticCallee() == nil || p.extName(call.Common().StaticCallee()) != "strings.HasPrefix" {
+				return false
+			}
+			s, isC := constString(call.Common().Args[1])
+			return isC && s == "{#"
+		}
 		// the store that skips the opener: pos += 2 guarded by HasPrefix(input[pos:], "{#")
 		var skip *ssa.Store
-		for _, b := range run.Blocks {
-			for _, in := range b.Instrs {
-				st, ok := in.(*ssa.Store)
-				if !ok || !isFieldAddrOf(st.Addr, "lexer", "pos") {
-					continue
-				}
-				g := Guarded(in, func(c ssa.Value, pol bool) bool {
-					call, ok := c.(*ssa.Call)
-					if !ok || !pol || call.Common().StaticCallee() == nil || p.extName(call.Common().StaticCallee()) != "strings.HasPrefix" {
-						return false
+		for _, f := range cl {
+			for _, b := range f.Blocks {
+				for _, in := range b.Instrs {
+					st, ok := in.(*ssa.Store)
+					if !ok || !isFieldAddrOf(st.Addr, "lexer", "pos") || skip != nil {
+						continue
 					}
-					s, isC := constString(call.Common().Args[1])
-					return isC && s == "{#"
-				})
-				if g && skip == nil {
-					skip = st
+					if t2GuardedIP(p, run, in, opener, 2) {
+						skip = st
+					}
 				}
 			}
 		}
 		found := false
-		for _, b := range run.Blocks {
-			for _, in := range b.Instrs {
-				call, ok := in.(*ssa.Call)
-				if !ok || call.Common().StaticCallee() == nil {
-					continue
-				}
-				n := p.extName(call.Common().StaticCallee())
-				if n != "strings.HasPrefix" && n != "strings.Index" && n != "strings.Contains" {
-					continue
-				}
-				s, isC := constString(call.Common().Args[1])
-				if !isC || s != "#}" {
-					continue
-				}
-				found = true
-				// the searched text: input[X:] where X is loaded after the skip
-				okPos := false
-				var walk func(v ssa.Value, d int)
-				walk = func(v ssa.Value, d int) {
-					if d > 5 {
-						return
+		for _, f := range cl {
+			for _, b := range f.Blocks {
+				for _, in := range b.Instrs {
+					call, ok := in.(*ssa.Call)
+					if !ok || call.Common().StaticCallee() == nil {
+						continue
 					}
-					switch x := v.(type) {
-					case *ssa.Slice:
-						if ld, isLd := x.Low.(*ssa.UnOp); isLd && isFieldAddrOf(ld.X, "lexer", "pos") && skip != nil && (Dominates(skip, ld) || ReachesFromInstr(skip, ld) && !ReachesFromInstrAvoiding(run.Blocks[0], ld, skip)) {
-							okPos = true
+					n := p.extName(call.Common().StaticCallee())
+					if n != "strings.HasPrefix" && n != "strings.Index" && n != "strings.Contains" {
+						continue
+					}
+					s, isC := constString(call.Common().Args[1])
+					if !isC || s != "#}" {
+						continue
+					}
+					found = true
+					// the searched text: input[X:] where X is loaded after the skip
+					okPos := false
+					var walk func(v ssa.Value, d int)
+					walk = func(v ssa.Value, d int) {
+						if d > 5 {
+							return
 						}
-					case *ssa.UnOp:
-						if sv := localLoadValue(x); sv != nil {
-							walk(sv, d+1)
-						}
-					case *ssa.Phi:
-						for _, e := range x.Edges {
-							walk(e, d+1)
+						switch x := v.(type) {
+						case *ssa.Slice:
+							if ld, isLd := x.Low.(*ssa.UnOp); isLd && isFieldAddrOf(ld.X, "lexer", "pos") && skip != nil && t2AlwaysAfter(p, run, skip, ld, 2) {
+								okPos = true
+							}
+						case *ssa.UnOp:
+							if sv := localLoadValue(x); sv != nil {
+								walk(sv, d+1)
+							}
+						case *ssa.Phi:
+							for _, e := range x.Edges {
+								walk(e, d+1)
+							}
 						}
 					}
-				}
-				walk(call.Common().Args[0], 0)
-				if okPos {
-					r.OK("lexer:terminator-search", p.InstrPos(in), "the comment terminator is searched in the input after the opener")
-				} else {
-					r.Bad("lexer:terminator-search", p.InstrPos(in), "the search for `#}` works on text that still contains (part of) the opener `{#`: `{#}` is taken for a complete comment and the rest of the comment is rendered/evaluated")
+					walk(call.Common().Args[0], 0)
+					if okPos {
+						r.OK("lexer:terminator-search", p.InstrPos(in), "the comment terminator is searched in the input after the opener")
+					} else {
+						r.Bad("lexer:terminator-search", p.InstrPos(in), "the search for `#}` works on text that still contains (part of) the opener `{#`: `{#}` is taken for a complete comment and the rest of the comment is rendered/evaluated")
+					}
 				}
 			}
 		}
 		if !found {
 			r.Unk("lexer:terminator-search", p.Pos(run.Pos()), "no search for the comment terminator `#}` found")
 		}
-	}
-	// the lexer's {# #} handling emits no token for the comment: between detecting "{#" and the closing ignore() no emit
-	run := p.Method("lexer", "run")
-	if run != nil {
+		// the lexer's {# #} handling emits no token for the comment: the span is discarded with ignore() (in run, or in
+		// the helper that skips the opener, after the skip)
 		ignores := 0
 		for _, b := range run.Blocks {
 			for _, in := range b.Instrs {
 				if c, ok := in.(*ssa.Call); ok && c.Common().StaticCallee() != nil && c.Common().StaticCallee().Name() == "ignore" {
 					ignores++
+				}
+			}
+		}
+		if skip != nil && skip.Parent() != run {
+			for _, b := range skip.Parent().Blocks {
+				for _, in := range b.Instrs {
+					if c, ok := in.(*ssa.Call); ok && c.Common().StaticCallee() != nil && c.Common().StaticCallee().Name() == "ignore" && ReachesFromInstr(skip, in) {
+						ignores++
+					}
 				}
 			}
 		}
@@ -692,24 +727,47 @@ func ruleC06VerbatimBody(p *Prog, a *Anchors, r *Report) {
 		r.Unk("anchor", "-", "anchor unresolved: (*lexer).run / emit")
 		return
 	}
-	// the marker field: a bool field of Token stored with true in run under inVerbatim
+	// the marker field: a bool field of Token that the lexer (run, or a helper method run calls) stores with true under
+	// inVerbatim, or with the value of inVerbatim itself
+	cl := clusterOf(p, run, 2)
 	marker := ""
 	inVerb := func(c ssa.Value, pol bool) bool { return pol && loadsField(c, "lexer", "inVerbatim") }
-	for _, b := range run.Blocks {
-		for _, in := range b.Instrs {
-			st, ok := in.(*ssa.Store)
-			if !ok {
-				continue
-			}
-			fa, ok := st.Addr.(*ssa.FieldAddr)
-			if !ok {
-				continue
-			}
-			if n := structOf(fa.X.Type()); n == nil || n.Obj().Name() != "Token" {
-				continue
-			}
-			if bv, isC := constBool(st.Val); isC && bv && Guarded(in, inVerb) {
-				marker = fieldName(fa.X.Type(), fa.Field)
+	notInVerb := func(c ssa.Value, pol bool) bool { return !pol && loadsField(c, "lexer", "inVerbatim") }
+	tokenBoolStore := func(in ssa.Instruction) (*ssa.Store, string) {
+		st, ok := in.(*ssa.Store)
+		if !ok {
+			return nil, ""
+		}
+		fa, ok := st.Addr.(*ssa.FieldAddr)
+		if !ok {
+			return nil, ""
+		}
+		if n := structOf(fa.X.Type()); n == nil || n.Obj().Name() != "Token" {
+			return nil, ""
+		}
+		return st, fieldName(fa.X.Type(), fa.Field)
+	}
+	// isMark: the store marks the token as verbatim text whenever the lexer is in verbatim mode: the constant true
+	// (where the mode is known to be on: underMode), or the mode flag as it is at that moment
+	isMark := func(in ssa.Instruction, underMode bool) (string, bool) {
+		st, fld := tokenBoolStore(in)
+		if st == nil {
+			return "", false
+		}
+		if bv, isC := constBool(st.Val); isC {
+			return fld, bv && underMode
+		}
+		return fld, t2FreshModeLoad(p, st.Val, st)
+	}
+	for _, f := range cl {
+		for _, b := range f.Blocks {
+			for _, in := range b.Instrs {
+				if st, _ := tokenBoolStore(in); st == nil {
+					continue
+				}
+				if fld, ok := isMark(in, t2GuardedIP(p, run, in, inVerb, 2)); ok {
+					marker = fld
+				}
 			}
 		}
 	}
@@ -717,41 +775,44 @@ func ruleC06VerbatimBody(p *Prog, a *Anchors, r *Report) {
 		r.Bad("lexer:mark", p.Pos(run.Pos()), "the lexer does not mark the text token it emits inside a verbatim block: the parser cannot tell a verbatim body from ordinary text and applies whitespace control to it")
 		return
 	}
-	// every emit under inVerbatim is followed by the mark before the scanning loop goes on
-	for _, c := range callsTo(run, emit) {
-		in := c.(ssa.Instruction)
-		if !Guarded(in, inVerb) {
-			continue
-		}
-		ok := true
-		for _, s := range in.Block().Succs {
-			_ = s
-		}
-		// the mark must come before the verbatim flag is cleared (leaving the mode)
-		var clear ssa.Instruction
-		for _, b := range run.Blocks {
-			for _, x := range b.Instrs {
-				if st, isSt := x.(*ssa.Store); isSt && isFieldAddrOf(st.Addr, "lexer", "inVerbatim") {
-					if bv, isC := constBool(st.Val); isC && !bv && ReachesInstr(in.Block(), x) {
-						clear = x
+	// every emit that can happen in verbatim mode is followed by the mark before the verbatim flag is cleared (leaving
+	// the mode). An emit under `inVerbatim` is always looked at; one whose mode is not tested on the way (the handling of
+	// both tags merged into one path) is looked at when the mode is switched after it.
+	for _, f := range cl {
+		for _, c := range callsTo(f, emit) {
+			in := c.(ssa.Instruction)
+			under := t2GuardedIP(p, run, in, inVerb, 2)
+			if !under && (t2GuardedIP(p, run, in, notInVerb, 2) || f == emit) {
+				continue
+			}
+			var clears []ssa.Instruction
+			for _, b := range f.Blocks {
+				for _, x := range b.Instrs {
+					if st, isSt := x.(*ssa.Store); isSt && isFieldAddrOf(st.Addr, "lexer", "inVerbatim") {
+						if bv, isC := constBool(st.Val); (!isC || !bv) && ReachesInstr(in.Block(), x) && (under || ReachesFromInstr(in, x)) {
+							clears = append(clears, x)
+						}
 					}
 				}
 			}
-		}
-		if clear != nil {
-			ok = MustPassFrom(in.Block(), instrIndex(in)+1, clear, func(x ssa.Instruction) bool {
-				st, isSt := x.(*ssa.Store)
-				if !isSt {
-					return false
+			if !under && len(clears) == 0 {
+				continue // not part of the verbatim handling (e.g. the flush at the end of the input)
+			}
+			ok := true
+			for _, clear := range clears {
+				// paths on which the mode is tested off after the emit carry no verbatim text: not considered
+				if !t2MustPassFromEdges(in.Block(), instrIndex(in)+1, clear, func(x ssa.Instruction) bool {
+					fld, isM := isMark(x, under)
+					return isM && fld == marker
+				}, notInVerb) {
+					ok = false
 				}
-				fa, isFA := st.Addr.(*ssa.FieldAddr)
-				return isFA && structOf(fa.X.Type()) != nil && structOf(fa.X.Type()).Obj().Name() == "Token" && fieldName(fa.X.Type(), fa.Field) == marker
-			})
-		}
-		if ok {
-			r.OK("lexer:mark", p.InstrPos(in), "the token emitted in verbatim mode gets Token.%s", marker)
-		} else {
-			r.Bad("lexer:mark", p.InstrPos(in), "a token emitted in verbatim mode can leave the lexer without Token.%s", marker)
+			}
+			if ok {
+				r.OK("lexer:mark", p.InstrPos(in), "the token emitted in verbatim mode gets Token.%s", marker)
+			} else {
+				r.Bad("lexer:mark", p.InstrPos(in), "a token emitted in verbatim mode can leave the lexer without Token.%s", marker)
+			}
 		}
 	}
 	// the parser: trim flags only for unmarked tokens
@@ -782,7 +843,7 @@ func ruleC06VerbatimBody(p *Prog, a *Anchors, r *Report) {
 		if Guarded(in, func(c ssa.Value, pol bool) bool { return !pol && loadsField(c, "Token", marker) }) {
 			r.OK(key, p.InstrPos(in), "set only when the token is not a verbatim body")
 		} else {
-			r.Bad(key, p.InstrPos(in), "this trim flag can be set for the text of a verbatim block: {{ a -}}{% verbatim %}  x{% endverbatim %} loses the blanks of the body (or its first newline under TrimBlocks)")
+			r.Bad(key, p.InstrPos(in), "this trim flag can be set for the text of a verbatim block: {{ a -}}{%% verbatim %%}  x{%% endverbatim %%} loses the blanks of the body (or its first newline under TrimBlocks)")
 		}
 	})
 	if nStores == 0 {
@@ -879,6 +940,11 @@ func ruleC06Redispatch(p *Prog, a *Anchors, r *Report) {
 			continue
 		}
 		first := hdr.Instrs[0]
+		// the switch happens inside a helper that reports it through its bool result, and run() branches on that result:
+		// judged per mode store of the helper, from the edge on which the helper says "switched"
+		if c, isCall := sw.(ssa.CallInstruction); isCall && t2RedispatchViaHelper(p, r, next, c, first, consumes) {
+			continue
+		}
 		ok := true
 		for _, c := range consumes {
 			if !MustPassFrom(sw.Block(), instrIndex(sw)+1, c, func(x ssa.Instruction) bool { return x == first }) {
@@ -921,7 +987,10 @@ func constPatternOf(p *Prog, v ssa.Value) (string, bool) {
 
 // decidersOf: the conditions on whose true edge `in` is reached that are pattern tests of the input; `opaque` is set
 // when a condition that is neither such a test nor a test of the mode flag takes part (a hand-written matcher).
-func decidersOf(p *Prog, in ssa.Instruction) (ds []verbDecider, opaque string) {
+//
+// mode: when the switch is a toggle (`inVerbatim = !inVerbatim`) the conditions are evaluated once for each value of the
+// flag; a pattern chosen by the flag (`re := reStart; if l.inVerbatim { re = reEnd }`) is resolved for that value.
+func decidersOf(p *Prog, in ssa.Instruction, mode *bool) (ds []verbDecider, opaque string) {
 	seen := map[ssa.Value]bool{}
 	eachDominatingCond(in, func(c ssa.Value, pol bool) bool {
 		if seen[c] {
@@ -945,7 +1014,7 @@ func decidersOf(p *Prog, in ssa.Instruction) (ds []verbDecider, opaque string) {
 					}})
 				}
 			case "(*regexp.Regexp).MatchString":
-				if pat, isC := constPatternOf(p, x.Common().Args[0]); isC && pol {
+				if pat, isC := t2PatternUnderMode(p, x.Common().Args[0], mode, x, in); isC && pol {
 					if re, err := regexp.Compile(pat); err == nil {
 						seen[c] = true
 						ds = append(ds, verbDecider{"MatchString " + strconv.Quote(pat), func(s string) (int, bool) { return -1, re.MatchString(s) }})
@@ -993,7 +1062,7 @@ func decidersOf(p *Prog, in ssa.Instruction) (ds []verbDecider, opaque string) {
 				return false
 			}
 			if p.extName(call.Common().StaticCallee()) == "(*regexp.Regexp).FindStringIndex" && (x.Op == token.NEQ) == pol {
-				if pat, isC := constPatternOf(p, call.Common().Args[0]); isC {
+				if pat, isC := t2PatternUnderMode(p, call.Common().Args[0], mode, call, in); isC {
 					if re, err := regexp.Compile(pat); err == nil {
 						seen[c] = true
 						ds = append(ds, verbDecider{"FindStringIndex " + strconv.Quote(pat), func(s string) (int, bool) {
@@ -1037,26 +1106,16 @@ func ruleC06VerbatimTags(p *Prog, a *Anchors, r *Report) {
 		}
 	}
 	gen("", 6)
-	for _, b := range run.Blocks {
-		for _, in := range b.Instrs {
-			st, ok := in.(*ssa.Store)
-			if !ok || !isFieldAddrOf(st.Addr, "lexer", "inVerbatim") {
-				continue
-			}
-			k, isC := st.Val.(*ssa.Const)
-			if !isC || k.Value == nil || k.Value.Kind() != constant.Bool {
-				r.Unk("run:mode-switch", p.InstrPos(in), "verbatim mode is set to a computed value")
-				continue
-			}
-			name, key := "endverbatim", "run:leave-verbatim:tag"
-			if constant.BoolVal(k.Value) {
-				name, key = "verbatim", "run:enter-verbatim:tag"
-			}
+	// judge: one switch of the mode (the store `in` of function f, for a toggle under the assumption *mode about the flag
+	// before it) against the tag `name`; the deciding conditions are those of the store's own function and, when that is
+	// a helper of run(), those at its call sites (one evaluation per call path)
+	judge := func(f *ssa.Function, b *ssa.BasicBlock, in ssa.Instruction, name, key string, mode *bool) {
+		for _, ctx := range t2DeciderContexts(p, run, in, mode, 2) {
+			ds, opaque := ctx.ds, ctx.opaque
 			ref := regexp.MustCompile(`^\{%[ \t]*` + name + `[ \t]*%\}`)
 			// a tag that carries a block NAME is outside what the property speaks about (the engine may refuse it, or
 			// implement Django's named verbatim blocks): not compared
 			named := regexp.MustCompile(`^\{%[ \t]*` + name + `[ \t]+[A-Za-z0-9_]+[ \t]*%\}`)
-			ds, opaque := decidersOf(p, in)
 			if opaque != "" {
 				r.Assume(key, p.InstrPos(in), "the switch is (also) decided by %s, not by constant patterns: what it accepts is not evaluated here", opaque)
 				continue
@@ -1102,7 +1161,7 @@ func ruleC06VerbatimTags(p *Prog, a *Anchors, r *Report) {
 			}
 			// the advance: pos is moved by the end of the match (or by the length of the constant that was matched)
 			adv := false
-			for _, bb := range run.Blocks {
+			for _, bb := range f.Blocks {
 				if !b.Dominates(bb) && bb != b {
 					continue
 				}
@@ -1156,6 +1215,33 @@ func ruleC06VerbatimTags(p *Prog, a *Anchors, r *Report) {
 			}
 			if !adv {
 				r.Assume(strings.TrimSuffix(key, ":tag")+":width", p.InstrPos(in), "the position is not advanced in the block of the mode switch: the width is not decided")
+			}
+		}
+	}
+	for _, f := range clusterOf(p, run, 2) {
+		for _, b := range f.Blocks {
+			for _, in := range b.Instrs {
+				st, ok := in.(*ssa.Store)
+				if !ok || !isFieldAddrOf(st.Addr, "lexer", "inVerbatim") {
+					continue
+				}
+				k, isC := st.Val.(*ssa.Const)
+				if !isC || k.Value == nil || k.Value.Kind() != constant.Bool {
+					// `inVerbatim = !inVerbatim`: leaves the mode when it is on, enters it when it is off
+					if t2IsToggle(p, st) {
+						on, off := true, false
+						judge(f, b, in, "endverbatim", "run:leave-verbatim:tag", &on)
+						judge(f, b, in, "verbatim", "run:enter-verbatim:tag", &off)
+						continue
+					}
+					r.Unk("run:mode-switch", p.InstrPos(in), "verbatim mode is set to a computed value")
+					continue
+				}
+				name, key := "endverbatim", "run:leave-verbatim:tag"
+				if constant.BoolVal(k.Value) {
+					name, key = "verbatim", "run:enter-verbatim:tag"
+				}
+				judge(f, b, in, name, key, nil)
 			}
 		}
 	}
